@@ -404,7 +404,7 @@ def correspondence(ctx):
             scale = 10 ** rng.uniform(-3, 3)
             x, y, nx, ny = _rand_inputs(rng, scale)
             p0 = rng.uniform(-3, 3) / max(scale, 1.0)
-            p1 = 0.0 if (s % 2 == 0 or "" in variants) else rng.uniform(0.1, 2) / max(scale, 1.0)
+            p1 = 0.0 if (s % 2 == 0 or "" in variants) else rng.choice((-1.0, 1.0)) * rng.uniform(0.1, 2) / max(scale, 1.0)
             if "modified" in name:
                 p0 = abs(p0)
             params = np.array([p0, p1])
@@ -450,7 +450,7 @@ def oracle(ctx, deep=False):
                 scale = 10 ** rng.uniform(-3, 3)
                 x, _, nx, _ = _rand_inputs(rng, scale)
                 p0 = rng.uniform(-3, 3) / max(scale, 1.0)
-                p1 = 0.0 if s % 2 == 0 else rng.uniform(0.1, 2) / max(scale, 1.0)
+                p1 = 0.0 if s % 2 == 0 else rng.choice((-1.0, 1.0)) * rng.uniform(0.1, 2) / max(scale, 1.0)
                 if "modified" in kt:
                     p0 = abs(p0)
                 branch = "im0" if p1 == 0 else "imnz"
@@ -494,7 +494,7 @@ def oracle(ctx, deep=False):
             scale = 10 ** rng.uniform(-2, 2)
             x, _, nx, _ = _rand_inputs(rng, scale)
             p0 = rng.uniform(-3, 3) / max(scale, 1.0)
-            p1 = 0.0 if s % 2 == 0 else rng.uniform(0.1, 2) / max(scale, 1.0)
+            p1 = 0.0 if s % 2 == 0 else rng.choice((-1.0, 1.0)) * rng.uniform(0.1, 2) / max(scale, 1.0)
             branch = "im0" if p1 == 0 else "imnz"
             env = {"c4pi": 1.0 / (4 * np.pi), "p0": p0, "p1": p1}
             ys = []
